@@ -25,7 +25,14 @@ package main
 //            struct filled the same way, every slice is empty WITH spare
 //            capacity (what tools.Filter leaves behind), every map is empty
 //            non-nil, every `any` holds an empty list
-//   payload  ... | exotic (typed slices and maps, a pointer to an IR node)
+//            wide: like wellformed with THREE distinct elements in every slice
+//            and map near the root (a routine that treats only the first or
+//            the last element properly); zeroed: like wellformed but every
+//            scalar slot holds its zero value (false, 0, "") and slices have
+//            one element; combined with the falsy payloads
+//   payload  ... | exotic (typed slices and maps, a map in a map, a pointer to a
+//            pointer, a pointer to an IR node) | false | zero | emptystr (the same falsy
+//            value in every `any` slot; empty lists/maps: fill emptied)
 //
 // The only knowledge about ast.Type is the convention that links Kind to the
 // pointer field of the same name (kindField); a pointer field that is not in
@@ -105,11 +112,22 @@ func c18New(t reflect.Type, s c18Shape) (reflect.Value, *c18Filler) {
 func (f *c18Filler) sparse() bool    { return f.shape.Fill == "sparse" }
 func (f *c18Filler) nilled() bool    { return f.shape.Fill == "nilled" }
 func (f *c18Filler) emptied() bool   { return f.shape.Fill == "emptied" }
+func (f *c18Filler) wide() bool      { return f.shape.Fill == "wide" }
+func (f *c18Filler) zeroed() bool    { return f.shape.Fill == "zeroed" }
 func (f *c18Filler) saturated() bool { return f.shape.Fill == "saturated" }
 
 // sliceLen: two elements near the root, one further down (keeps builders of a few thousand cells)
 func (f *c18Filler) sliceLen() int {
-	if f.depth <= 3 && !f.saturated() {
+	if f.wide() {
+		if f.depth <= 2 {
+			return 3
+		}
+		return 1
+	}
+	if f.zeroed() {
+		return 1
+	}
+	if f.depth <= 2 && !f.saturated() {
 		return 2
 	}
 	return 1 // saturated is about every field being populated, not about width
@@ -142,6 +160,17 @@ func (f *c18Filler) payload() any {
 	if f.emptied() {
 		return make([]any, 0, 2)
 	}
+	switch kind { // falsy payloads: the SAME falsy value in every `any` slot of the value
+	case "false":
+		return false
+	case "zero":
+		if f.next()%2 == 0 {
+			return int64(0)
+		}
+		return float64(0)
+	case "emptystr":
+		return ""
+	}
 	switch kind {
 	case "exotic":
 		// dynamic types the parsers do not produce but Go code may store: typed containers, a pointer
@@ -150,14 +179,24 @@ func (f *c18Filler) payload() any {
 		ints := make([]int64, 1, 2)
 		ints[0] = int64(f.next())
 		ref := &verifapi.RefType{ReferredPkg: fmt.Sprintf("s%d", f.next()), ReferredType: fmt.Sprintf("s%d", f.next())}
-		out := make([]any, 4, 6)
-		out[0], out[1], out[2], out[3] = strs, map[string][]int64{fmt.Sprintf("k%d", f.next()): ints}, ref, scalar()
+		pp := &ref // pointer to pointer
+		inner := make([]any, 1, 2)
+		inner[0] = scalar()
+		mm := map[string]map[string]any{fmt.Sprintf("k%d", f.next()): {fmt.Sprintf("k%d", f.next()): inner}} // map inside a map
+		out := make([]any, 6, 8)
+		out[0], out[1], out[2], out[3], out[4], out[5] = strs, map[string][]int64{fmt.Sprintf("k%d", f.next()): ints}, ref, scalar(), pp, mm
 		return out
 	case "scalar":
 		return scalar()
 	case "slice":
-		s := make([]any, 2, 4)
-		s[0], s[1] = scalar(), scalar()
+		n := 2
+		if f.wide() {
+			n = 3
+		}
+		s := make([]any, n, n+2)
+		for i := range s {
+			s[i] = scalar()
+		}
 		return s
 	case "map":
 		return map[string]any{fmt.Sprintf("k%d", f.next()): scalar(), fmt.Sprintf("k%d", f.next()): scalar()}
@@ -185,6 +224,19 @@ func (f *c18Filler) fill(v reflect.Value, chain []string, sat int) {
 	if f.err != nil {
 		return
 	}
+	switch v.Kind() {
+	case reflect.String, reflect.Bool, reflect.Int, reflect.Int8, reflect.Int16, reflect.Int32, reflect.Int64,
+		reflect.Uint, reflect.Uint8, reflect.Uint16, reflect.Uint32, reflect.Uint64, reflect.Float32, reflect.Float64:
+		if f.zeroed() {
+			return // every scalar slot keeps its zero value
+		}
+		f.fillScalar(v)
+	default:
+		f.fillOther(v, chain, sat)
+	}
+}
+
+func (f *c18Filler) fillScalar(v reflect.Value) {
 	t := v.Type()
 	switch v.Kind() {
 	case reflect.String:
@@ -201,6 +253,12 @@ func (f *c18Filler) fill(v reflect.Value, chain []string, sat int) {
 		v.SetUint(uint64(f.next()%100 + 1))
 	case reflect.Float32, reflect.Float64:
 		v.SetFloat(float64(f.next()) + 0.25)
+	}
+}
+
+func (f *c18Filler) fillOther(v reflect.Value, chain []string, sat int) {
+	t := v.Type()
+	switch v.Kind() {
 	case reflect.Interface:
 		if t.NumMethod() != 0 {
 			f.fail("cannot fill interface type %s", t)
@@ -268,6 +326,9 @@ func (f *c18Filler) fill(v reflect.Value, chain []string, sat int) {
 		n := 2
 		if f.nilled() {
 			return
+		}
+		if f.wide() && f.depth <= 2 {
+			n = 3
 		}
 		if f.emptied() {
 			n = 0
